@@ -17,7 +17,9 @@ def string_is_geometry(sequence: pd.Series, state: dict) -> bool:
 
     # only way to get rid of sys output when wkt.loads hits a bad value
     # TODO: use coercion wrapper for this
-    sys.stderr = open(os.devnull, "w")
+    previous_stderr = sys.stderr
+    devnull = open(os.devnull, "w")
+    sys.stderr = devnull
     try:
         result = all(wkt.loads(value) for value in sequence)
     except (
@@ -29,7 +31,8 @@ def string_is_geometry(sequence: pd.Series, state: dict) -> bool:
     ):
         result = False
     finally:
-        sys.stderr = sys.__stderr__
+        sys.stderr = previous_stderr
+        devnull.close()
     return result
 
 
